@@ -13,14 +13,17 @@ ID = 'C02'
 LEVEL = 'exploration'
 RULE = ('Hypothesis draws a synthetic bead sample: 6..8 subpopulations, 1..3 fluorescence channels with '
         'independent laws (m in [0.9,1.2], b in [1,5]), adjacent RFI ratio 2.5..4, CV 2..5 %, brightest population '
-        'at 0.2..0.5 of the channel range (resolution 1024 or 262144, float data), optional blank population, '
+        'at 0.2..0.5 of the channel range (resolution 1024 or 262144, float data; or integer data from a 4-decade log '
+        'amplifier converted with to_rfi, whose ranges start at 1), optional blank population, '
         'autofluorescence below half the dimmest non-blank bead, optional population piled up at a detector limit, '
         'optional unknown entries (None / NaN, >=3 known), statistic median/mean, clustering channels all / one / '
         'subset, random seed, random event order. Population sizes 200..800: balanced regime (max/min<=1.5, 70 %) '
         'where everything is enforced, and imbalanced regime (ratio up to 4) where grouping failures are known '
         'finding C02-KF1.  Non-trivial = >=2 channels, or an unknown entry, or a piled-up population, or '
         'clustering channels != calibrated channels.')
-ASSUMPTIONS = ['generated samples follow the bead law exactly at the population centres; MEF values are passed as '
+ASSUMPTIONS = ['the 10 % accuracy claim is asserted when at least five participating populations are brighter than 3x the '
+               'autofluorescence (the recovery precondition of C09); the other sub-claims always',
+               'generated samples follow the bead law exactly at the population centres; MEF values are passed as '
                'floats', 'grouping tolerance 0.2 % of events (5 % CV tails)',
                'accuracy (10 %) is evaluated over the span of the populations that took part in the fit',
                'curve equality between equivalent runs: rel. 1e-6']
@@ -36,7 +39,8 @@ CH = ['FL1-H', 'FL2-H', 'FL3-H']
 def _case(draw):
     npop = draw(st.integers(6, 8))
     nch = draw(st.integers(1, 3))
-    R = draw(st.sampled_from([1024, 262144]))
+    variant = draw(st.sampled_from(['float', 'float', 'int_log']))
+    R = draw(st.sampled_from([1024, 262144])) if variant == 'float' else 1024
     laws = []
     for _ in range(nch):
         laws.append(dict(m=draw(st.floats(0.9, 1.2)), b=draw(st.floats(1.0, 5.0)),
@@ -64,7 +68,7 @@ def _case(draw):
         clustering = draw(st.lists(st.integers(0, nch - 1), min_size=1, max_size=nch - 1, unique=True))
     else:
         clustering = list(range(nch))
-    return dict(npop=npop, nch=nch, R=R, laws=laws, sizes=sizes, regime=regime, blank=blank, piled=piled,
+    return dict(variant=variant, npop=npop, nch=nch, R=R, laws=laws, sizes=sizes, regime=regime, blank=blank, piled=piled,
                 unknown=unknown, clustering=clustering, cv=draw(st.floats(0.02, 0.05)),
                 statistic=draw(st.sampled_from(['median', 'mean'])), data_seed=draw(st.integers(0, 2 ** 20)),
                 np_seed=draw(st.integers(0, 2 ** 20)), perm_seed=draw(st.integers(0, 2 ** 20)))
@@ -93,10 +97,18 @@ def synth(case):
     labels = np.repeat(np.arange(npop), sizes)
     cols = []
     info = []
+    int_log = case.get('variant') == 'int_log'
+    TOP = 10 ** (4.0 * (R - 1) / R) if int_log else R - 1.0        # upper limit in RFI units
     for c in range(nch):
         law = case['laws'][c]
-        rfi = [law['top'] * (R - 1)]
-        for r in law['ratios']:
+        top = (0.3 + 0.2 * (law['top'] - 0.2) / 0.3) if int_log else law['top']
+        rfi = [top * TOP]
+        ratios = list(law['ratios'])
+        if int_log:
+            # a 4-decade log amplifier starts at RFI 1: compress the ladder so that the dimmest bead stays >= 3
+            cap = (top * TOP / 3.0) ** (1.0 / (npop - 1))
+            ratios = [min(2.5 + (r - 2.5) / 3.0, cap) for r in ratios]
+        for r in ratios:
             rfi.append(rfi[-1] / r)
         rfi = rfi[::-1]                                     # increasing brightness
         m, b = law['m'], law['b']
@@ -107,11 +119,15 @@ def synth(case):
             # blank population: MEF 0, RFI given by the autofluorescence; it sits one ladder step (ratio 3.4..4,
             # so that the autofluorescence stays below half the dimmest bead's MEF) under the dimmest bead
             rfi[0] = rfi[1] / (3.4 + 0.6 * law['auto_frac'] / 0.5)
+            if int_log:
+                rfi[0] = max(rfi[0], 2.5)
             auto = math.exp(b) * rfi[0] ** m
         mef = [max(0.0, math.exp(b) * x ** m - auto) for x in rfi]
         if case['blank']:
             mef[0] = 0.0
         x = np.array(rfi)[labels] * np.exp(rng.normal(0.0, case['cv'], n))
+        if int_log:
+            x = np.round(np.clip((R / 4.0) * np.log10(np.clip(x, 1e-9, None)), 0, R - 1))     # channel numbers
         if _piled(case, c) == 'brightest':
             x[labels == npop - 1] = R - 1.0
         elif _piled(case, c) == 'dimmest':
@@ -137,15 +153,24 @@ def _same_curve(p, q, tol=1e-3, lo=1e-2, hi=1e4):
     return bool(np.all(np.abs(a / b - 1.0) <= tol))
 
 
-def load(X, R, name):
+def load(X, R, name, int_log=False):
     import FlowCal.io
+    import FlowCal.transform
     D = X.shape[1]
     names = ['FSC-H', 'SSC-H'] + CH[:D - 3] + ['Time']
-    spec = dict(version='FCS3.0', datatype='D', byteord='1,2,3,4', widths=[64] * D, ranges=[R] * D, names=names,
-                pne=['0,0'] * D, events=[[f64_bits(float(v)) for v in row] for row in X])
+    if int_log:
+        spec = dict(version='FCS2.0', datatype='I', byteord='4,3,2,1', widths=[16] * D, ranges=[R] * D, names=names,
+                    pne=['0,0', '0,0'] + ['4,1'] * (D - 3) + ['0,0'],
+                    events=[[int(min(max(round(float(v)), 0), R - 1)) for v in row] for row in X])
+    else:
+        spec = dict(version='FCS3.0', datatype='D', byteord='1,2,3,4', widths=[64] * D, ranges=[R] * D, names=names,
+                    pne=['0,0'] * D, events=[[f64_bits(float(v)) for v in row] for row in X])
     path = os.path.join(workdir(), name)
     fcsgen.write(path, spec)
-    return FlowCal.io.FCSData(path)
+    d = FlowCal.io.FCSData(path)
+    if int_log:
+        d = FlowCal.transform.to_rfi(d, CH[:D - 3])       # ranges now start at 1, not at 0
+    return d
 
 
 def check(case, obs):
@@ -153,7 +178,9 @@ def check(case, obs):
     import FlowCal.stats
     X, labels, info = synth(case)
     npop, nch = case['npop'], case['nch']
-    d = load(X, case['R'], 'c02.fcs')
+    int_log = case.get('variant') == 'int_log'
+    d = load(X, case['R'], 'c02.fcs', int_log)
+    Xd = np.asarray(d, dtype=float)
     chans = CH[:nch]
     stat = dict(median=FlowCal.stats.median, mean=FlowCal.stats.mean)[case['statistic']]
     # manufacturer values, with unknown entries
@@ -166,7 +193,7 @@ def check(case, obs):
     clustering_channels = [chans[i] for i in case['clustering']]
     nontriv = nch >= 2 or bool(case['unknown']) or any(_piled(case, c) for c in range(nch)) or sorted(case['clustering']) != list(range(nch))
     obs.nontrivial = nontriv
-    obs.label('regime:' + case['regime'], 'channels:%d' % nch, 'piled:%s' % ('mixed' if len({_piled(case, c) for c in range(nch)}) > 1 else _piled(case, 0)), 'blank' if case['blank'] else 'no_blank',
+    obs.label('variant:' + case.get('variant', 'float'), 'regime:' + case['regime'], 'channels:%d' % nch, 'piled:%s' % ('mixed' if len({_piled(case, c) for c in range(nch)}) > 1 else _piled(case, 0)), 'blank' if case['blank'] else 'no_blank',
               'unknown' if case['unknown'] else 'all_known', 'stat:' + case['statistic'],
               'clustering:' + ('all' if sorted(case['clustering']) == list(range(nch)) else 'subset'))
 
@@ -208,7 +235,7 @@ def check(case, obs):
         sel_rfi = np.asarray(out.selection['rfi'][c], dtype=float)
         sel_mef = np.asarray(out.selection['mef'][c], dtype=float)
         obs.claim('consistency', len(vals) == npop and len(sel_rfi) == len(sel_mef), 'statistic / selection lengths')
-        col = X[:, 2 + c]
+        col = Xd[:, 2 + c]
         true_stat = np.array([float(stat(col[labels == k])) for k in range(npop)])
         unk = {p for p, _ in case['unknown'].get(str(c), [])}
         keep = [k for k in range(npop) if k not in unk and k != piled_idx]
@@ -236,7 +263,13 @@ def check(case, obs):
         conv = call(out.transform_fxn, probe, 2 + c) if False else call(out.fitting['std_crv'][c], grid)
         true = math.exp(info[c]['b']) * grid ** info[c]['m']
         rel = float(np.max(np.abs(np.asarray(conv) / true - 1.0))) if not raised(conv) else float('inf')
-        obs.claim('accuracy', rel <= 0.10, lambda: 'channel %s: conversion off by %.1f %% over the calibrated span' % (ch, 100 * rel))
+        # the 10 % claim needs a well-determined fit: C09's precondition (at least five participating populations
+        # clearly brighter than the autofluorescence); with fewer, 0.2 % sampling noise in the statistics is
+        # amplified beyond 10 % by the three-parameter fit although it still equals the fit to the true statistics
+        if int(np.sum(exp_mef >= 3.0 * info[c]['auto'])) >= 5:
+            obs.claim('accuracy', rel <= 0.10, lambda: 'channel %s: conversion off by %.1f %% over the calibrated span' % (ch, 100 * rel))
+        else:
+            obs.exclude('accuracy_fit_underdetermined')
         # the returned transformation applies that curve to that channel
         t = call(out.transform_fxn, d, ch)
         obs.claim('transform_fxn', not raised(t) and bool(np.allclose(np.asarray(t)[:, 2 + c], out.fitting['std_crv'][c](col), rtol=1e-12)),
@@ -248,7 +281,7 @@ def check(case, obs):
     obs.claim('seed', same, 'two runs with the same random seed differ')
     # ---- event order
     perm = np.random.Generator(np.random.PCG64(case['perm_seed'])).permutation(n)
-    dp = load(X[perm], case['R'], 'c02p.fcs')
+    dp = load(X[perm], case['R'], 'c02p.fcs', int_log)
     outp = run(dp, chans, mef_values)
     # the permuted sample must be grouped by generating population as well, and give the same conversion.  Curves
     # are compared at 5 % over the span of the populations that took part in the fit: labels are sampled from the responsibilities (another order consumes the random stream
